@@ -61,6 +61,7 @@ run("ROOMCODE", rules_path.run_roomcode, {"files": P["C03"]}, 4)
 run("ALIGNIDLE", rules_path.run_alignidle, {"files": P["C03"]}, 2)
 # round 11
 run("DEADCOPY", rules_path.run_deadcopy, {}, 100, indirs)
+run("DEADCALL", rules_path.run_deadcall, {}, 60, indirs)
 run("DETACHDEAD", rules_ref.run_detachdead, {}, 10, indirs)
 run("READBASE", rules_path.run_readbase, {}, 20)
 run("MUSTCHECK", rules_effect.run_mustcheck, {}, 800, indirs)
